@@ -69,6 +69,8 @@ fn version_digit(v: &ADSBVersion) -> u8 {
         ADSBVersion::DOC9871AppendixA => 0,
         ADSBVersion::DOC9871AppendixB => 1,
         ADSBVersion::DOC9871AppendixC => 2,
+        #[allow(unreachable_patterns)]
+        _ => 99,
     }
 }
 
